@@ -130,6 +130,9 @@ func discharge(file string, timeoutS int, seed int, all bool) (SolveResult, []So
 		go func(i int, sp solverSpec) {
 			defer wg.Done()
 			res[i] = runSolverCtx(ctx, sp, file, timeoutS, seed)
+			if strings.HasSuffix(sp.name, "/em") && res[i].Verdict == "sat" {
+				res[i].Verdict = "unknown" // without model-based instantiation a "sat" is not a model of the quantified part
+			}
 			if !all && (res[i].Verdict == "unsat" || res[i].Verdict == "sat") && !strings.HasSuffix(sp.name, "/em") {
 				cancel()
 			}
